@@ -57,8 +57,11 @@ Apply(s, e) ==
              a == e.seq2 = RCSeq(e.seq)
              b == e.o1 = [i \in 1..n |-> WindowScore(e.m, e.seq, i - 1, 4)]
              c == Len(e.o2) = n /\ \A i \in 0..(n - 1) : e.o2[(L - M - i) + 1] = e.o1[i + 1]
-         IN [ok |-> a /\ b /\ c, st |-> s,
-             exp |-> [why |-> IF ~a THEN "sequence_reverse_complement" ELSE IF ~b THEN "forward_scores" ELSE "mirrored_scores"]]
+             \* the single-position entry point (ScoringMatrix::score_position) gives the same values on both strands
+             d == e.p1 = e.o1 /\ e.p2 = e.o2
+         IN [ok |-> a /\ b /\ c /\ d, st |-> s,
+             exp |-> [why |-> IF ~a THEN "sequence_reverse_complement" ELSE IF ~b THEN "forward_scores" ELSE IF ~c THEN "mirrored_scores"
+                              ELSE "score_position_differs"]]
 
 TK == INSTANCE TraceKit
 Spec == TK!TKSpec
